@@ -291,7 +291,7 @@ pub const ENUM_ALPHABET: [Sym; 14] = [
     Sym::Finish(StreamSel::First),
 ];
 
-fn random_sym(rng: &mut Rng, m: &Model) -> Sym {
+pub fn random_sym(rng: &mut Rng, m: &Model) -> Sym {
     let ss = |rng: &mut Rng| *rng.pick(&[StreamSel::First, StreamSel::First, StreamSel::Last, StreamSel::Last, StreamSel::Deleted, StreamSel::Never, StreamSel::Zero]);
     // bias: make progress likely (connect, accept) but keep rare orders frequent
     let progress = rng.chance(1, 3);
